@@ -93,14 +93,14 @@ func (b *Body) instr(in ssa.Instruction, blk *ssa.BasicBlock, reach *T, st State
 		} else {
 			es := ft.sortOf(el)
 			reg := "HS." + es
-			ft.setRegion(st, reg, Sto(ft.region(st, reg), ref, A("(as const (Array Int "+es+"))", S.Zero(el))))
+			ft.setRegion(st, reg, Sto(ft.region(st, reg), ref, ft.constArray("Int", es, S.Zero(el))))
 		}
 	case *ssa.MakeMap:
 		ref := b.freshRef(x)
 		mt := types.Unalias(x.Type()).Underlying().(*types.Map)
 		ks, vs := ft.sortOf(mt.Key()), ft.sortOf(mt.Elem())
 		mk := "MK." + ks
-		ft.setRegion(st, mk, Sto(ft.region(st, mk), ref, A("(as const (Array "+ks+" Bool))", tFalse)))
+		ft.setRegion(st, mk, Sto(ft.region(st, mk), ref, ft.constArray(ks, "Bool", tFalse)))
 		ft.setRegion(st, "MN", Sto(ft.region(st, "MN"), ref, Int(0)))
 		_ = vs
 	case *ssa.MapUpdate:
